@@ -1,0 +1,144 @@
+//! Public mirrors of the crate-private byte-pipe traits plus adapters in both directions, and a
+//! function that runs the real [`pipe::DuplexPipe`] on mirror endpoints.
+
+use crate::{log_utils, pipe};
+use async_trait::async_trait;
+use bytes::Bytes;
+use std::io;
+use std::time::Duration;
+
+/// Mirror of [`pipe::Source`]
+#[async_trait]
+pub trait ByteSource: Send {
+    /// `Ok(None)` = end of stream
+    async fn read(&mut self) -> io::Result<Option<Bytes>>;
+    fn consume(&mut self, size: usize) -> io::Result<()>;
+}
+
+/// Mirror of [`pipe::Sink`]
+#[async_trait]
+pub trait ByteSink: Send {
+    /// Returns the unsent portion of `data`
+    fn write(&mut self, data: Bytes) -> io::Result<Bytes>;
+    fn eof(&mut self) -> io::Result<()>;
+    async fn wait_writable(&mut self) -> io::Result<()>;
+    async fn flush(&mut self) -> io::Result<()>;
+}
+
+#[derive(Copy, Clone, Debug, PartialEq, Eq)]
+pub enum Direction {
+    /// from a peer to the client
+    Incoming,
+    /// from the client to a peer
+    Outgoing,
+}
+
+impl From<pipe::SimplexDirection> for Direction {
+    fn from(d: pipe::SimplexDirection) -> Self {
+        match d {
+            pipe::SimplexDirection::Incoming => Direction::Incoming,
+            pipe::SimplexDirection::Outgoing => Direction::Outgoing,
+        }
+    }
+}
+
+/// harness object -> crate trait
+pub(crate) struct SourceIn(pub Box<dyn ByteSource>);
+pub(crate) struct SinkIn(pub Box<dyn ByteSink>);
+
+#[async_trait]
+impl pipe::Source for SourceIn {
+    fn id(&self) -> log_utils::IdChain<u64> {
+        log_utils::IdChain::empty()
+    }
+    async fn read(&mut self) -> io::Result<pipe::Data> {
+        Ok(match self.0.read().await? {
+            Some(b) => pipe::Data::Chunk(b),
+            None => pipe::Data::Eof,
+        })
+    }
+    fn consume(&mut self, size: usize) -> io::Result<()> {
+        self.0.consume(size)
+    }
+}
+
+#[async_trait]
+impl pipe::Sink for SinkIn {
+    fn id(&self) -> log_utils::IdChain<u64> {
+        log_utils::IdChain::empty()
+    }
+    fn write(&mut self, data: Bytes) -> io::Result<Bytes> {
+        self.0.write(data)
+    }
+    fn eof(&mut self) -> io::Result<()> {
+        self.0.eof()
+    }
+    async fn wait_writable(&mut self) -> io::Result<()> {
+        self.0.wait_writable().await
+    }
+    async fn flush(&mut self) -> io::Result<()> {
+        self.0.flush().await
+    }
+}
+
+/// crate object -> harness trait
+pub(crate) struct SourceOut(pub Box<dyn pipe::Source>);
+pub(crate) struct SinkOut(pub Box<dyn pipe::Sink>);
+
+#[async_trait]
+impl ByteSource for SourceOut {
+    async fn read(&mut self) -> io::Result<Option<Bytes>> {
+        Ok(match self.0.read().await? {
+            pipe::Data::Chunk(b) => Some(b),
+            pipe::Data::Eof => None,
+        })
+    }
+    fn consume(&mut self, size: usize) -> io::Result<()> {
+        self.0.consume(size)
+    }
+}
+
+#[async_trait]
+impl ByteSink for SinkOut {
+    fn write(&mut self, data: Bytes) -> io::Result<Bytes> {
+        self.0.write(data)
+    }
+    fn eof(&mut self) -> io::Result<()> {
+        self.0.eof()
+    }
+    async fn wait_writable(&mut self) -> io::Result<()> {
+        self.0.wait_writable().await
+    }
+    async fn flush(&mut self) -> io::Result<()> {
+        self.0.flush().await
+    }
+}
+
+/// Run the real [`pipe::DuplexPipe::exchange`]: `client` source feeds `peer` sink (Outgoing)
+/// and `peer` source feeds `client` sink (Incoming), exactly as `Tunnel` wires them.
+pub async fn duplex_exchange<F>(
+    client: (Box<dyn ByteSource>, Box<dyn ByteSink>),
+    peer: (Box<dyn ByteSource>, Box<dyn ByteSink>),
+    idle_timeout: Duration,
+    update_metrics: F,
+) -> io::Result<()>
+where
+    F: Fn(Direction, usize) + Send + Clone,
+{
+    let (client_rx, client_tx) = client;
+    let (peer_rx, peer_tx) = peer;
+    let mut pipe = pipe::DuplexPipe::new(
+        (
+            pipe::SimplexDirection::Outgoing,
+            Box::new(SourceIn(client_rx)),
+            Box::new(SinkIn(peer_tx)),
+        ),
+        (
+            pipe::SimplexDirection::Incoming,
+            Box::new(SourceIn(peer_rx)),
+            Box::new(SinkIn(client_tx)),
+        ),
+        move |d: pipe::SimplexDirection, n| update_metrics(d.into(), n),
+    );
+    pipe.exchange(idle_timeout).await
+}
